@@ -777,24 +777,79 @@ func analyzePhi(p *ssa.Phi) *phiInfo {
 		return nil
 	}
 	pi := &phiInfo{}
-	for _, e := range p.Edges {
+	for i, e := range p.Edges {
 		if k, ok := stepOf(e, p); ok {
 			pi.steps = append(pi.steps, k)
 			pi.stepVals = append(pi.stepVals, e)
 		} else {
-			// init must not depend on p: approximate: defined in a block that dominates p's block, or const/param
+			// an initial value must not depend on p: it comes in over an edge that is not a back
+			// edge of the loop (its source is not dominated by the loop header), and is defined
+			// outside the loop
+			pred := p.Block().Preds[i]
+			if p.Block().Dominates(pred) {
+				return nil
+			}
 			if ins, ok := e.(ssa.Instruction); ok {
-				if !ins.Block().Dominates(p.Block()) || ins.Block() == p.Block() {
+				if ins.Block() == p.Block() || p.Block().Dominates(ins.Block()) {
 					return nil
 				}
 			}
 			pi.inits = append(pi.inits, e)
 		}
 	}
-	if len(pi.steps) == 0 || len(pi.inits) != 1 {
+	if len(pi.steps) == 0 || len(pi.inits) == 0 {
 		return nil
 	}
+	if len(pi.inits) > 1 {
+		// several ways into the loop: usable only if the initial values are the same value or
+		// differ by constants (then the extreme one bounds the variable, see initBound)
+		same := true
+		for _, e := range pi.inits[1:] {
+			if e != pi.inits[0] {
+				same = false
+			}
+		}
+		if same {
+			pi.inits = pi.inits[:1]
+		} else if len(pi.inits) > 4 {
+			return nil
+		}
+	}
 	return pi
+}
+
+// initBound: a term that bounds all initial values of the induction variable from below
+// (lower = true) or from above; ok=false if they cannot be compared.
+func (fi *funcInfo) initBound(pi *phiInfo, lower bool) (Lin, bool) {
+	if len(pi.inits) == 1 {
+		return fi.term(pi.inits[0]), true
+	}
+	var ts []Lin
+	for _, e := range pi.inits {
+		ts = append(ts, fi.term(e))
+	}
+	for i, m := range ts {
+		ok := true
+		for j, t := range ts {
+			if i == j {
+				continue
+			}
+			d := t.sub(m)
+			if !d.isConst() {
+				ok = false
+				break
+			}
+			sign := d.c.Sign()
+			if lower && sign < 0 || !lower && sign > 0 {
+				ok = false
+				break
+			}
+		}
+		if ok {
+			return m, true
+		}
+	}
+	return Lin{}, false
 }
 
 // guardedBackEdge: some If in the loop compares the phi or its step value
@@ -1028,15 +1083,20 @@ func (fi *funcInfo) rangeFactsSeen(seen map[string]bool, ls ...Lin) []Lin {
 						}
 						fi2 := fiByFn[p.Parent()]
 						if fi2 != nil && !fi2.busy[p] {
-							init := fi2.term(pi.inits[0])
-							if _, self := init.coef[a]; !self {
-								if allPos {
-									out = append(out, atom(a).sub(init))
-									out = append(out, fi2.rangeFactsSeen(seen, init)...)
+							if allPos {
+								if init, ok := fi2.initBound(pi, true); ok {
+									if _, self := init.coef[a]; !self {
+										out = append(out, atom(a).sub(init))
+										out = append(out, fi2.rangeFactsSeen(seen, init)...)
+									}
 								}
-								if allNeg {
-									out = append(out, init.sub(atom(a)))
-									out = append(out, fi2.rangeFactsSeen(seen, init)...)
+							}
+							if allNeg {
+								if init, ok := fi2.initBound(pi, false); ok {
+									if _, self := init.coef[a]; !self {
+										out = append(out, init.sub(atom(a)))
+										out = append(out, fi2.rangeFactsSeen(seen, init)...)
+									}
 								}
 							}
 						}
